@@ -281,6 +281,33 @@ Theorem C04_mq_exactly_one_drainer :
 Proof. exact mq_exactly_one_drainer. Qed.
 Print Assumptions C04_mq_exactly_one_drainer.
 
+Theorem C04_mq_complete_means_quiescent :
+  forall s,
+  complete s = true <-> remaining s = 0 /\ merging s = 0 /\ runs s <= 1.
+Proof. exact mq_complete_means_quiescent. Qed.
+Print Assumptions C04_mq_complete_means_quiescent.
+
+Theorem C04_mq_complete_is_stable :
+  forall ks s s',
+  mreach ks s -> mstep s s' -> complete s = true -> complete s' = true.
+Proof. exact mq_complete_is_stable. Qed.
+Print Assumptions C04_mq_complete_is_stable.
+
+Theorem C04_mq_finished_only_when_complete :
+  forall ks s,
+  mreach ks s -> 0 < count is_take (mps s) + count is_drain (mps s) + count is_done (mps s) -> complete s = true.
+Proof. exact mq_finished_only_when_complete. Qed.
+Print Assumptions C04_mq_finished_only_when_complete.
+
+Theorem C04_mq_model_steps_are_queue_ops :
+  forall ks s s' q,
+  mreach ks s -> mstep s s' -> q_sim s q ->
+  exists q', q_sim s' q' /\
+    ((exists k, q' = fst (q_add q k)) \/ (exists p, q' = fst (q_poll q p)) \/
+     q' = fst (q_merge_done q) \/ q' = fst (fst (q_take q)) \/ q' = q).
+Proof. exact mq_model_steps_are_queue_ops. Qed.
+Print Assumptions C04_mq_model_steps_are_queue_ops.
+
 
 (* ---- proofs/BarrierStreamProofs.v ---- *)
 Theorem C04_stream_inv_parked_implies_flag_unset :
